@@ -4,6 +4,7 @@ import (
 	"context"
 	"crypto/tls"
 	"crypto/x509"
+	"encoding/pem"
 	"time"
 
 	sdk "github.com/cosmos/cosmos-sdk/types"
@@ -66,8 +67,19 @@ func NewServerTLSConfig(ctx context.Context, certs []tls.Certificate, cquery cty
 					return errors.New("tls: attempt to use non-existing or revoked certificate")
 				}
 
+				// verify against the certificate published on chain, not against the presented one
+				blk, rest := pem.Decode(resp.Certificates[0].Certificate.Cert)
+				if blk == nil || len(rest) > 0 {
+					return errors.New("tls: invalid certificate stored on chain")
+				}
+
+				chainCert, err := x509.ParseCertificate(blk.Bytes)
+				if err != nil {
+					return errors.Wrap(err, "tls: failed to parse certificate stored on chain")
+				}
+
 				clientCertPool := x509.NewCertPool()
-				clientCertPool.AddCert(cert)
+				clientCertPool.AddCert(chainCert)
 
 				opts := x509.VerifyOptions{
 					Roots:                     clientCertPool,
